@@ -9,6 +9,7 @@ S["C01"] = dict(title="Accepted QoS>=1 publishes are retransmitted until acknowl
     H("verifH_C01_accept", "L01.a accept: Save of the stamped packet, enqueue, first write or exactly one error; failure leaves no trace", T({"W":1,"wfaults":2,"storefaults":1}), T({"W":2,"wfaults":2,"storefaults":1}, time_sec=1500), ("refused-max","save-failed","enqueued-offline","written","write-broke")),
     H("verifH_C01_ack", "L01.c/L03.a PUBACK/PUBREC/PUBCOMP with arbitrary identifier", T({"W":2,"wfaults":1,"storefaults":1}), T({"W":3,"wfaults":2,"storefaults":1}, time_sec=1500), ("puback-applied","puback-delete-failed","puback-rejected","pubcomp-applied","pubcomp-delete-failed","pubcomp-rejected","pubrec-applied","pubrec-rejected","pubrec-save-failed","pubrec-write-failed")),
     H("verifH_C01_resend", "L01.b resend under write and Load faults", T({"W":2,"wfaults":2,"storefaults":1}), T({"W":3,"wfaults":2,"storefaults":1}, time_sec=1500), ("complete","failed")),
+    H("verifH_C05_reconnectrace", "an accepted publish racing the read routine's reconnect (Save and Write are scheduling points): both return, everything accepted reaches the new connection", T({"light":1}, time_sec=900), T({"light":0}, time_sec=1800, maxpaths=1000000), ("new-after-old","end")),
     _compose, _connect_light,
     H("verifH_C02_adopt", "across restarts: AdoptSession on an arbitrary PINV store (ring position free, windows straddling the identifier wrap) resends exactly the unacknowledged set and a new publish does not overwrite a pending record", T({"shapes":6}), T({"shapes":10}, time_sec=2400), ("adopted","adopted-twice","drained","adopted-twice-pubrec")),
   ],
@@ -88,6 +89,7 @@ S["C02"] = dict(title="Restart resumes exactly the unacknowledged set, at any st
 S["C16"] = dict(title="A damaged Persistence never bricks the session: adopt, warn, connect, go on", technique=TECH+"; AdoptSession on a damaged arbitrary PINV store, observed through resend and a follow-up publish", harnesses=[
     H("verifH_C16_adopt", "PINV store with <= k outbound records altered / truncated / removed, stray entries, limits in 3 classes: no fatal, warnings for unusable/abandoned records, resend succeeds with genuine packets in order, placeholders match, new publish does not collide", T({"W":2,"W1":1,"damage":1,"orders":1,"markers":1,"maxcls":1,"strays":2}, time_sec=900), T({"W":1,"damage":2,"orders":2,"markers":1,"maxcls":2,"strays":3}, time_sec=1800, maxpaths=5000000), ("abandoned-with-warning","end")),
     H("verifH_C16_adopt", "same, runs with records already missing inside (several gaps in one run, gaps of 1 or 2 identifiers, ring position free)", T({"W":1,"W1":3,"W1min":2,"sparse":1,"damage":0,"orders":1,"markers":1,"maxcls":1,"strays":1}, time_sec=900), T({"W":1,"W1":4,"W1min":2,"sparse":1,"damage":1,"orders":1,"markers":1,"maxcls":1,"strays":1}, time_sec=2400, maxpaths=5000000), ("abandoned-with-warning","end")),
+    H("verifH_C16_adopt", "same for the exactly-once level: one PUBREL followed by a run of 2..3 PUBLISH records with gaps anywhere (at the junction, inside the run)", T({"W":1,"W1":0,"WRmin":1,"WP":3,"WPmin":2,"sparse":1,"damage":0,"orders":1,"markers":1,"maxcls":1,"strays":1}, time_sec=900), T({"W":1,"W1":0,"WRmin":1,"WP":4,"WPmin":2,"sparse":1,"damage":0,"orders":2,"markers":1,"maxcls":1,"strays":1}, time_sec=2400, maxpaths=2000000), ("abandoned-with-warning","end")),
     H("verifH_C16_clientid", "damaged client-identifier record: reported, or a connect can succeed", reach=()),
   ],
   assumptions=["records forged with a valid checksum are excluded (as the property says); damage is modelled as a failing checksum, a value shorter than 12 bytes, or removal (detection itself is C15)",
@@ -123,6 +125,7 @@ S["C18"] = dict(title="Connection set-up: CONNECT first, clean session once, res
   outside=["TLS / real net dialers","more than one reconnect in a row (each connect starts from an INV state)"])
 S["C10"] = dict(title="The read routine never wedges: failed connections are left and redialed", technique=TECH+"; polling loops bounded by unwinding, a loop that polls an unchanged state is a wedge", harnesses=[
     H("verifH_C10_foreignfailure", "L10.b another goroutine's write failure left connPending while the read routine owes PUBACK/PUBREC/PUBCOMP/PUBREL: ReadSlices must return or redial", T({"spin":24}), T({"spin":48}), ("redialed",)),
+    H("verifH_C10_stalledwrite", "L10.c the read routine gives up the connection while another goroutine is stalled in a Write without deadline, holding the write token: toOffline returns (it closes first), the writer is released with an error, the next connection works"),
     H("verifH_C10_offline", "L10.a stream truncated at any byte (incl. inside a big duplicate): error, offline, pending subscribe and ping released with ErrBreak", reach=("offline",)),
     H("verifH_C10_backoff", "L10.d ReadBackoff durations for free ReconnectWaitMin/Max and ramp state", reach=("end","ramp")),
     _connect,
